@@ -85,16 +85,17 @@ CHECKS["C02"] = dict(
          "call (structural induction over the stream, then over the pieces). Generic in the parser; the premise parse_needs_opener is PROVED of the "
          "concrete parser (the_concrete_parser_needs_an_opener: lexer invariant over all modes, root = first start tag, registered tag = buffer tag), "
          "giving concrete_framing_lossless_ordered_prompt; the premise Framing.spelling per message spelling (parsed whole, no proper prefix parses, "
-         "opener at 0, single final '>', fits) is PROVED of the text to_string writes for every constructible printable message "
-         "(printed_message_is_a_spelling: XML print-then-parse identity, message round trip, no_prefix_of_a_printed_element_parses - after the root "
-         "has closed the lexer accepts blanks only), giving the end-to-end theorems every_stream_of_written_messages_is_read_back and "
-         "written_messages_are_delivered_promptly: any list of constructible messages written by to_string, ANY cut into pieces, the buffer with the "
-         "concrete parser and the live tags delivers exactly those messages in order, each as soon as its last byte arrived; the only hypothesis left "
-         "is that each message fits the threshold (K1). For other spellings (single quotes, extra blanks) the premise is decidable and evaluated per "
-         "instance (spell_check_sound). Correspondence: real "
+         "opener at 0, single final '>', fits) is PROVED of EVERY text the concrete parser accepts as a message that begins with a registered opener and "
+         "ends with '>' (accepted_text_is_a_spelling: no proper prefix of a complete document ending in a non-blank is complete - after the root has "
+         "closed the lexer accepts blanks only -, and a complete document never ends in two '>'), whatever quotes, blanks, entity forms or attribute "
+         "order it uses; the canonical text to_string writes is an instance (printed_message_is_a_spelling). End-to-end theorems with nothing assumed "
+         "of the parser: any_accepted_stream_is_framed(_promptly) for streams of any accepted spellings and opener-free junk, "
+         "every_stream_of_written_messages_is_read_back / written_messages_are_delivered_promptly for what the library writes - ANY cut into pieces, "
+         "exactly the messages in order, each as soon as its last byte arrived; the only hypothesis left is that each message fits the threshold (K1). "
+         "Correspondence: real "
          "Buffer and the three real receive loops vs the model with the concrete XML+message parser; every 1-cut, every 2-cut of short streams, "
          "per-character, random cuts, three thresholds.",
-    note=NOTE_BASE + "Proved for the canonical spelling to_string writes; other spellings of the same message (which a foreign peer may send) are checked per instance.",
+    note=NOTE_BASE + "The XML layer is a model of expat validated by correspondence (C03); within the model nothing is assumed of the parser.",
     technique="Coq proof (structural induction over segmented streams; generic parser with decidable premises) + correspondence incl. real receive loops",
     design="4/C02")
 CHECKS["C07"] = dict(
